@@ -296,14 +296,27 @@ CHECKS = {
         technique="Lean permutation-invariance lemmas + cross-process, cross-hash-seed byte comparison of real outputs",
     ),
     "C06": dict(
-        category="translation_validation",
-        text=("For small specifications and a covering family of 20 encoder option sets the text the real encoder hands to the solver is "
-              "given to z3 (stand-in): it must be accepted without errors (every symbol declared once at its sort), and the optimum plus "
-              "further models of the hard constraints (blocking clauses), decoded with the encoder's own theta table, must pass the Lean "
-              "`Spec.realizes` within the declared length and stack bounds. No Lean model of the encoder exists, so this is per-model "
-              "validation, not a proof; one genuine finding (-push-basic with uninterpreted sorts) is listed in known_findings.json."),
+        category="proof",
+        text=("Models/Encoding.lean and Models/EncodingOrder.lean generate, from the instance data of the real FullEncoding object (stack bound, "
+              "length, instructions with theta values/kinds/operands/position bounds, initial and target stack, the term table, order tuples, "
+              "dependency graph), the hard constraints that matter for soundness as raw constructor trees, exactly as the Python code calls "
+              "add_and/add_eq/...: restrict_t_domain, every *_encoding of synthesis_stack_constraints (boolean u variables), the initial/final "
+              "stack constraints, the distinctness constraints of each term encoding, at-least/at-most-once for stores, the store/store, "
+              "store/load, load/store constraints of the direct memory encoding and the l-variable constraints of the l_vars encoding. "
+              "Formula.build (the proved model of connector_factory, C18) turns them into the emitted formulas. Kernel-checked: step_sound (one "
+              "transition constraint is one step of the abstract stack machine, for all nine instruction kinds), core_sound / core_sound_built "
+              "(every valuation satisfying the emitted core decodes to b0 instructions whose run from the initial stack never underflows nor "
+              "exceeds the bound and ends in the target stack), core_realizes with inj_uf / inj_stackVars / inj_int (the run is symbolic: every "
+              "operation applied to exactly the operands the specification names), store_exactly_once, store_store_order, store_load_order, "
+              "load_store_order, l_exactly_once, l_order (every store once, every declared dependence respected). Tie: on every run, for "
+              "generated blocks x encoder option sets, each formula the model generates must occur verbatim (as a tree) among the hard "
+              "constraints the real encoder emits, and the executable premises of the theorems (instOk, well-sortedness, svsOk/intTermsOk, "
+              "orderOk, thetasOk) are evaluated on the instance. Additionally the text handed to the solver must be accepted by z3 and the "
+              "optimum plus further models, decoded with the tool's own theta table, must pass Spec.realizes. Outside the theorems: the "
+              "-empty variants, instances with a stack bound of 0 or a terminal block, SMT-LIB rendering/declarations and the model reader "
+              "(validated per instance/model). The attempt to prove the order constraints exposed a genuine defect (fixed)."),
         design_ref="DESIGN.md section 8, C06",
-        technique="model enumeration with z3 over the real encoder's output, each decoded model checked by the Lean 'realizes' specification",
+        technique="Lean 4 soundness theorems about a model of the Max-SMT encoding generated from the real encoder's instance data + verbatim (tree-level) correspondence of every generated constraint with the real encoder's output; z3 model enumeration with the Lean 'realizes' checker as failing-input search",
     ),
     "C07": dict(
         category="model_checking",
